@@ -68,6 +68,69 @@ class ScriptedSocket:
         return chunk
 
 
+class ScriptedSendSocket:
+    """The sender's side of the transport: accepts what send_msg writes.  sendall() takes everything (that is its contract);
+    send() and sendmsg() accept only part of what they are offered (short writes), as a real socket may."""
+
+    def __init__(self, rng):
+        self.wire = bytearray()
+        self.rng = rng
+        self.calls = []
+
+    def _take(self, n):
+        if n <= 1:
+            return n
+        return self.rng.choice([1, 2, 3, 4, 5, max(1, n // 2), n - 1, n])
+
+    def sendall(self, data, *flags):
+        self.wire += bytes(data)
+        self.calls.append(['sendall', len(data), len(data)])
+
+    def send(self, data, *flags):
+        k = self._take(len(data))
+        self.wire += bytes(data)[:k]
+        self.calls.append(['send', len(data), k])
+        return k
+
+    def sendmsg(self, buffers, *a):
+        data = b''.join(bytes(b) for b in buffers)
+        k = self._take(len(data))
+        self.wire += data[:k]
+        self.calls.append(['sendmsg', len(data), k])
+        return k
+
+
+def execute_sent(remote, objs, rng):
+    """messages written by the REAL send_msg onto a transport with short writes, read back by the real recv_msg"""
+    ss = ScriptedSendSocket(rng)
+    sent_ok = True
+    try:
+        for o in objs:
+            remote.send_msg(ss, o)
+    except Exception as e:  # noqa
+        sent_ok = False
+    wire = bytes(ss.wire)
+    expect = b''.join(struct.pack('!I', len(remote.remote_pickle.dumps(o))) + remote.remote_pickle.dumps(o) for o in objs)
+    lens = [len(remote.remote_pickle.dumps(o)) for o in objs]
+    sock = ScriptedSocket(wire, len(wire), 'fin' if len(wire) < len(expect) else 'none', [], rng)
+    sock.budget = len(wire) + 64
+    msgs, outcome = [], 'done'
+    try:
+        for _ in objs:
+            m = remote.recv_msg(sock)
+            k = len(msgs)
+            msgs.append(k + 1 if (m == objs[k] and type(m) is type(objs[k])) else 0)
+    except remote.ConnectionClosedError:
+        outcome = 'CCE'
+    except Spin:
+        outcome = 'spin'
+    except Exception as e:  # noqa
+        outcome = 'raised:' + type(e).__name__
+    # the sender wrote complete messages: the scenario is the complete stream, whatever reached the wire
+    return {'scn': {'lens': lens, 'cut': sum(4 + x for x in lens), 'endk': 'none'},
+            'obs': {'msgs': msgs, 'outcome': outcome if sent_ok else 'raised:send', 'calls': min(len(sock.log), sum(4 + x for x in lens) + 1)}}, ss.calls
+
+
 def _tla_seq(s):
     return json.loads(s.replace('<<', '[').replace('>>', ']'))
 
@@ -241,6 +304,18 @@ def run(prop, tier, replay=None):
     for lens in ([4], [5, 4], [5, 4, 4, 5], [17, 4, 40]):
         total = sum(4 + x for x in lens)
         one(lens, total, 'none', [1] * total)
+
+    # 3b. the sender: real send_msg onto a transport that accepts short writes, read back by the real recv_msg
+    n_sent = 0
+    for objs in ([None], [0, None], ['x' * 300, {'k': [1, 2]}, b'\x00' * 70000, 'tail'], [b'z' * 300000, 5]):
+        for rep in range(3 if tier == 'quick' else 12):
+            rec, scalls = execute_sent(remote, objs, random.Random(rng.random()))
+            rid = 'r%d' % len(records)
+            rec['id'] = rid
+            records.append(rec)
+            meta[rid] = {'lens': rec['scn']['lens'], 'cut': rec['scn']['cut'], 'endk': 'none', 'plan': [], 'sender_calls': scalls[:12]}
+            n_sent += 1
+    ev.cov['sender_executions'] = n_sent
 
     # 4. TLC judges every real execution with the C10 operators
     fails, rj = tlc.judge('FramingJudge', records, name='judge')
